@@ -39,8 +39,23 @@ class AssertionFailed(Exception):
     pass
 
 
-SAFE_BUILTINS = {'float', 'len', 'range', 'enumerate', 'zip', 'sum', 'tuple', 'list', 'isinstance', 'max', 'min', 'sorted', 'reversed', 'any', 'all', 'str', 'int', 'bool', 'abs', 'set', 'frozenset', 'dict'}
-SAFE_METHODS = {'reverse', 'sort', 'split', 'rsplit', 'partition', 'strip', 'append', 'extend', 'join', 'index', 'count', 'insert', 'pop', 'copy', 'items', 'keys', 'values', 'get', 'format', 'startswith', 'endswith'}
+class _Break(Exception):
+    pass
+
+
+class _Continue(Exception):
+    pass
+
+
+class RaisedIn(Exception):
+    '''the interpreted fragment executed a `raise`; .name is the exception class as written'''
+
+    def __init__(self, name):
+        self.name = name
+
+
+SAFE_BUILTINS = {'next', 'iter', 'filter', 'map', 'float', 'len', 'range', 'enumerate', 'zip', 'sum', 'tuple', 'list', 'isinstance', 'max', 'min', 'sorted', 'reversed', 'any', 'all', 'str', 'int', 'bool', 'abs', 'set', 'frozenset', 'dict'}
+SAFE_METHODS = {'isdisjoint', 'issubset', 'issuperset', 'union', 'intersection', 'difference', 'add', 'update', 'discard', 'fromkeys', 'setdefault', 'reverse', 'sort', 'rstrip', 'lstrip', 'isdigit', 'split', 'rsplit', 'partition', 'strip', 'append', 'extend', 'join', 'index', 'count', 'insert', 'pop', 'copy', 'items', 'keys', 'values', 'get', 'format', 'startswith', 'endswith'}
 
 
 class Closure:
@@ -71,6 +86,7 @@ class MiniExec:
     def __init__(self, env):
         self.env = dict(env)
         self.log = []       # (callee label, args, kwargs, result) of every call on an Opaque
+        self.yielded = []   # values of `yield` statements, in order
 
     # -- expressions -----------------------------------------------------------------------------------------
     def ev(self, e, env=None):
@@ -95,8 +111,10 @@ class MiniExec:
                 if not hasattr(v, e.attr):
                     raise Unsupported(f'abstract object has no attribute {e.attr}')
                 return getattr(v, e.attr)
-            if isinstance(v, (list, tuple, str, dict)) and e.attr in SAFE_METHODS:
+            if isinstance(v, (list, tuple, str, dict, set, frozenset)) and e.attr in SAFE_METHODS:
                 return getattr(v, e.attr)
+            if v is dict and e.attr == 'fromkeys':
+                return dict.fromkeys
             raise Unsupported(f'attribute {e.attr} of {type(v).__name__}')
         if isinstance(e, ast.Call):
             f = self.ev(e.func, env)
@@ -133,7 +151,8 @@ class MiniExec:
             a, b = self.ev(e.left, env), self.ev(e.right, env)
             if isinstance(a, Opaque) or isinstance(b, Opaque):
                 return Opaque(f'({a!r} {type(e.op).__name__} {b!r})')
-            ops = {ast.Add: lambda: a + b, ast.Sub: lambda: a - b, ast.Mult: lambda: a * b, ast.FloorDiv: lambda: a // b, ast.Mod: lambda: a % b}
+            ops = {ast.Add: lambda: a + b, ast.Sub: lambda: a - b, ast.Mult: lambda: a * b, ast.FloorDiv: lambda: a // b, ast.Mod: lambda: a % b, ast.Pow: lambda: a ** b,
+                   ast.BitAnd: lambda: a & b, ast.BitOr: lambda: a | b, ast.BitXor: lambda: a ^ b}
             if type(e.op) not in ops:
                 raise Unsupported(f'operator {type(e.op).__name__}')
             return ops[type(e.op)]()
@@ -182,7 +201,9 @@ class MiniExec:
             if isinstance(v, Opaque):
                 return Opaque(f'{v.label}[{s!r}]')
             return v[s]
-        if isinstance(e, (ast.ListComp, ast.GeneratorExp, ast.SetComp)):
+        if isinstance(e, ast.GeneratorExp):
+            return self._lazy(e.generators, 0, dict(env), e.elt)     # lazily, as in Python: the source may be unbounded (itertools.count())
+        if isinstance(e, (ast.ListComp, ast.SetComp)):
             out = []
             self._comp(e.generators, 0, dict(env), lambda en: out.append(self.ev(e.elt, en)))
             return set(out) if isinstance(e, ast.SetComp) else out
@@ -195,6 +216,17 @@ class MiniExec:
         if isinstance(e, ast.JoinedStr):
             return ''.join(str(self.ev(v.value, env)) if isinstance(v, ast.FormattedValue) else v.value for v in e.values)
         raise Unsupported(f'expression {type(e).__name__}: {src(e)[:50]}')
+
+    def _lazy(self, gens, k, env, elt):
+        if k == len(gens):
+            yield self.ev(elt, env)
+            return
+        g = gens[k]
+        for item in self.ev(g.iter, env):
+            en = dict(env)
+            self._bind(g.target, item, en)
+            if all(self.ev(c, en) for c in g.ifs):
+                yield from self._lazy(gens, k + 1, en, elt)
 
     def _comp(self, gens, k, env, emit):
         if k == len(gens):
@@ -236,7 +268,11 @@ class MiniExec:
 
     def run(self, stmts):
         for s in stmts:
-            if isinstance(s, ast.Expr):
+            if isinstance(s, ast.Expr) and isinstance(s.value, ast.Yield):
+                self.yielded.append(self.ev(s.value.value) if s.value.value is not None else None)     # a generator body: the yielded values are collected in order
+            elif isinstance(s, ast.Expr) and isinstance(s.value, ast.YieldFrom):
+                self.yielded.extend(self.ev(s.value.value))
+            elif isinstance(s, ast.Expr):
                 if not (isinstance(s.value, ast.Constant) and isinstance(s.value.value, str)):
                     self.ev(s.value)
             elif isinstance(s, ast.Assign):
@@ -253,7 +289,32 @@ class MiniExec:
             elif isinstance(s, ast.For):
                 for item in self.ev(s.iter):
                     self._bind(s.target, item, self.env)
-                    self.run(s.body)
+                    try:
+                        self.run(s.body)
+                    except _Continue:
+                        continue
+                    except _Break:
+                        break
+                else:
+                    self.run(s.orelse)
+            elif isinstance(s, ast.While):
+                n = 0
+                while self.ev(s.test):
+                    n += 1
+                    if n > 10000:
+                        raise Unsupported('while loop does not end within 10000 iterations')
+                    try:
+                        self.run(s.body)
+                    except _Continue:
+                        continue
+                    except _Break:
+                        break
+                else:
+                    self.run(s.orelse)
+            elif isinstance(s, ast.Break):
+                raise _Break()
+            elif isinstance(s, ast.Continue):
+                raise _Continue()
             elif isinstance(s, ast.Assert):
                 if not self.ev(s.test):
                     raise AssertionFailed(src(s.test))
@@ -261,6 +322,8 @@ class MiniExec:
                 raise Returned(self.ev(s.value) if s.value is not None else None)
             elif isinstance(s, ast.Pass):
                 pass
+            elif isinstance(s, ast.Raise):
+                raise RaisedIn(src(s.exc.func) if isinstance(s.exc, ast.Call) else src(s.exc) if s.exc is not None else '')
             elif isinstance(s, ast.FunctionDef) and not s.decorator_list:
                 self.env[s.name] = Closure(s, self)
             else:
